@@ -64,7 +64,6 @@ impl MT111 {
 
         verify_parser_complete(&parser)?;
 
-
         Ok(MT111 {
             field_20,
             field_21,
